@@ -91,6 +91,11 @@ def plainChar (c : Char) : Bool :=
   !(c = '*' || c = '?' || c = '[' || c = ']' || c = '\\' || c = '{' || c = '}' || c = '^' || c = '$' ||
     c = '\n' || c.toNat = 0)
 
+/-- `[^...]` or `[...]`: negated?, and the class body. -/
+def classNeg : List Char → Bool × List Char
+  | '^' :: b => (true, b)
+  | s => (false, s)
+
 /-- Parse a glob pattern of the fragment into items ('/' is a literal). -/
 def parseGlob : Nat → List Char → Option (List GItem)
   | 0, _ => none
@@ -99,9 +104,9 @@ def parseGlob : Nat → List Char → Option (List GItem)
     if c = '*' then (parseGlob fuel s).map (.star :: ·)
     else if c = '?' then (parseGlob fuel s).map (.any :: ·)
     else if c = '[' then
-      let (neg, body) := match s with | '^' :: b => (true, b) | _ => (false, s)
-      match parseClassBody (body.length + 1) body [] with
-      | some (rs, rest) => if rest.length < (c :: s).length then (parseGlob fuel rest).map (.cls neg rs :: ·) else none
+      let nb := classNeg s
+      match parseClassBody (nb.2.length + 1) nb.2 [] with
+      | some (rs, rest) => if rest.length < (c :: s).length then (parseGlob fuel rest).map (.cls nb.1 rs :: ·) else none
       | none => none
     else if plainChar c then (parseGlob fuel s).map (.lit c :: ·)
     else none
@@ -252,9 +257,16 @@ inductive Matcher
   | builtin (p : List GItem)
   | regex (alts : List Re)
 
+/-- A clean relative pattern: no empty, `.` or `..` segment (so `filepath.Join(root, pattern)`, which calls `Clean`,
+    is plain concatenation with a '/'). -/
+def cleanPat (pattern : Name) : Bool :=
+  (splitOnSlash pattern).all fun s => !s.isEmpty && s != ['.'] && s != ['.', '.']
+
 /-- `patternToMatcher(root, pattern)`; `root = []` is Go's `""`.  `none`: compile error (the Go code returns an error,
-    `Glob` panics). -/
+    `Glob` panics) -- or the pattern is not clean: `filepath.Join` would rewrite it (`./a`, `a//b`, `a/`), which the
+    model does not follow (the driver answers `unmodelled` for such input before it gets here). -/
 def patternToMatcher (F : Facts) (root pattern : Name) : Option Matcher :=
+  if !cleanPat pattern then none else
   let full := if root.isEmpty || root == ['.'] then pattern else root ++ '/' :: pattern   -- filepath.Join on clean operands
   if !containsSub F.doubleStar pattern then (parseGlob (full.length + 1) full).map .builtin
   else (compileRe (toRegexString F full)).map .regex
